@@ -172,14 +172,23 @@ func lenBytes(tok string, bodyLen int) []byte {
 
 var sentinelPayload = []byte{0x7E, 0x01, 0x02}
 
+var sentinelCache sync.Map // cfgSpec -> []byte
+
 func sentinel(cfg cfgSpec) []byte {
-	if !cfg.Comp {
-		return refframe.Frame(sentinelPayload)
+	if b, ok := sentinelCache.Load(cfg); ok {
+		return b.([]byte)
 	}
-	if len(sentinelPayload) <= cfg.Thr {
-		return refframe.Frame(append([]byte{0}, sentinelPayload...))
+	var b []byte
+	switch {
+	case !cfg.Comp:
+		b = refframe.Frame(sentinelPayload)
+	case len(sentinelPayload) <= cfg.Thr:
+		b = refframe.Frame(append([]byte{0}, sentinelPayload...))
+	default:
+		b = refframe.Frame(append(refframe.VarInt(int32(len(sentinelPayload))), refframe.Zlib(sentinelPayload, 6)...))
 	}
-	return refframe.Frame(append(refframe.VarInt(int32(len(sentinelPayload))), refframe.Zlib(sentinelPayload, 6)...))
+	sentinelCache.Store(cfg, b)
+	return b
 }
 
 // free-form token alphabet (byte strings that need not line up into frames)
